@@ -1,0 +1,39 @@
+//go:build verif
+
+package drf
+
+import (
+	"volcano.sh/volcano/pkg/scheduler/framework"
+)
+
+// VerifNode is a read-only copy of what compareQueues reads from one node of
+// the hdrf hierarchy tree.
+type VerifNode struct {
+	Share     float64
+	Weight    float64
+	Saturated bool
+}
+
+// VerifNew builds the plugin exactly as New does and returns, next to it, a
+// function that copies the current hierarchy tree: one entry per inner node,
+// keyed by its path from the root ("root", "root/eng", "root/eng/dev", ...).
+// The job leaves (nodes without a children map) are left out.
+func VerifNew(arguments framework.Arguments) (framework.Plugin, func() map[string]VerifNode) {
+	p := New(arguments)
+	dp := p.(*drfPlugin)
+	return p, func() map[string]VerifNode {
+		out := map[string]VerifNode{}
+		var walk func(n *hierarchicalNode, path string)
+		walk = func(n *hierarchicalNode, path string) {
+			if n == nil || n.children == nil {
+				return
+			}
+			out[path] = VerifNode{Share: n.attr.share, Weight: n.weight, Saturated: n.saturated}
+			for name, c := range n.children {
+				walk(c, path+"/"+name)
+			}
+		}
+		walk(dp.hierarchicalRoot, "root")
+		return out
+	}
+}
